@@ -26,6 +26,8 @@ type SpecEnv struct {
 	typeScopePos   token.Pos
 	typeScopeNamed *types.Named
 	extSig         *types.Signature
+	topOld         bool // old(e): parameters denote their entry values
+	pol            int  // +1: positive position of a goal (universal quantifiers are skolemised), -1 negative, 0 off
 }
 
 func (ex *Exec) specEnvFor(st *State, fi *FuncInfo) *SpecEnv {
@@ -38,7 +40,10 @@ func (ex *Exec) specEnvFor(st *State, fi *FuncInfo) *SpecEnv {
 		env.tsub = st.frame.tsub
 	}
 	if st.frame != nil && st.frame.fi == ex.top && st.frame.closure == nil {
-		for k, v := range ex.topEnvBind {
+		env.topOld = true
+	}
+	if st.frame != nil {
+		for k, v := range st.frame.ghost {
 			env.bind[k] = v
 		}
 	}
@@ -64,6 +69,32 @@ type specFail struct{ msg string }
 
 func (env *SpecEnv) fail(format string, a ...interface{}) {
 	panic(specFail{fmt.Sprintf(format, a...)})
+}
+
+// goal evaluates a formula that is about to be proved: universal quantifiers in positive
+// position are replaced by fresh constants (equivalent, and it exposes the index expressions of
+// the goal to the index-witness patterns of the hypotheses).
+func (env *SpecEnv) goal(e SExpr) string {
+	c := *env
+	c.pol = 1
+	env.ex.inGoal++
+	defer func() { env.ex.inGoal-- }()
+	return c.boolTerm(e)
+}
+
+func (env *SpecEnv) flip() *SpecEnv {
+	c := *env
+	c.pol = -env.pol
+	return &c
+}
+
+func (env *SpecEnv) nopol() *SpecEnv {
+	if env.pol == 0 {
+		return env
+	}
+	c := *env
+	c.pol = 0
+	return &c
 }
 
 func (env *SpecEnv) boolTerm(e SExpr) string {
@@ -92,15 +123,16 @@ func (env *SpecEnv) eval(e SExpr) Val {
 	case *SIdent:
 		return env.ident(x.Name)
 	case *SUn:
-		v := env.eval(x.X)
 		if x.Op == "!" {
+			v := env.flip().eval(x.X)
 			return Val{T: sNot(v.T), S: sBool, Go: v.Go}
 		}
+		v := env.nopol().eval(x.X)
 		return Val{T: "(- " + v.T + ")", S: sInt, Go: v.Go}
 	case *SBin:
 		return env.bin(x)
 	case *SCond:
-		c := env.boolTerm(x.C)
+		c := env.nopol().boolTerm(x.C)
 		a, b := env.eval(x.A), env.eval(x.B)
 		r := a
 		if a.Go == nil || isUntypedNil(a.Go) {
@@ -113,10 +145,18 @@ func (env *SpecEnv) eval(e SExpr) Val {
 			env.fail("old() not available here")
 		}
 		n := env.with(env.old)
-		// bound variables stay, Go locals are not visible in the old state except parameters
+		if env.topOld {
+			// parameters denote their entry values inside old(); quantifier-bound names stay
+			n = n.child()
+			for k, v := range ex.topEnvBind {
+				if _, bound := env.bind[k]; !bound {
+					n.bind[k] = v
+				}
+			}
+		}
 		return n.eval(x.X)
 	case *SLet:
-		v := env.eval(x.Val)
+		v := env.nopol().eval(x.Val)
 		c := env.child()
 		c.bind[x.Name] = v
 		return c.eval(x.Body)
@@ -131,8 +171,12 @@ func (env *SpecEnv) eval(e SExpr) Val {
 		idx := env.eval(x.I)
 		switch base.S.Kind {
 		case KSeq, KSet, KMapG:
+			if idx.S.Kind == KInt {
+				ex.noteIx(idx.T)
+			}
 			return Val{T: sSel(base.T, idx.T), S: base.S.Elem, Go: base.elemGo()}
 		case KSlice:
+			ex.noteIx(idx.T)
 			return ex.loadElemPure(env.st, base, idx.T)
 		case KRef:
 			// Go map: ghost view  m[k] -> value
@@ -277,10 +321,11 @@ func (env *SpecEnv) bin(x *SBin) Val {
 	case "||":
 		return bv(sOr(env.boolTerm(x.L), env.boolTerm(x.R)))
 	case "==>":
-		return bv(sImp(env.boolTerm(x.L), env.boolTerm(x.R)))
+		return bv(sImp(env.flip().boolTerm(x.L), env.boolTerm(x.R)))
 	case "<==>":
-		return bv(sEq(env.boolTerm(x.L), env.boolTerm(x.R)))
+		return bv(sEq(env.nopol().boolTerm(x.L), env.nopol().boolTerm(x.R)))
 	}
+	env = env.nopol()
 	l, r := env.eval(x.L), env.eval(x.R)
 	switch x.Op {
 	case "==":
@@ -320,7 +365,20 @@ func (env *SpecEnv) eq(l, r Val) string {
 
 func (env *SpecEnv) quant(x *SQuant) Val {
 	ex := env.ex
+	if ex.bounded == 0 && ((x.Forall && env.pol > 0) || (!x.Forall && env.pol < 0)) {
+		c := env.child()
+		for _, v := range x.Vars {
+			ty, s := env.resolveType(v.Type)
+			n := ex.w.freshConst("sk_"+v.Name, s)
+			c.bind[v.Name] = Val{T: n, S: s, Go: ty}
+			if s.Kind == KInt {
+				ex.noteIx(n)
+			}
+		}
+		return Val{T: c.boolTerm(x.Body), S: sBool, Go: types.Typ[types.Bool]}
+	}
 	c := env.child()
+	c.pol = 0
 	var decl []string
 	type bv struct {
 		name string
@@ -376,6 +434,19 @@ func (env *SpecEnv) quant(x *SQuant) Val {
 	q := "forall"
 	if !x.Forall {
 		q = "exists"
+	}
+	// index-witness pattern: every integer-quantified formula can also be instantiated at any
+	// index expression that the code or a contract uses to access a slice or sequence
+	allInt := true
+	var ixs []string
+	for _, b := range bvs {
+		if b.s.Kind != KInt {
+			allInt = false
+		}
+		ixs = append(ixs, "("+ex.ixFn()+" "+b.name+")")
+	}
+	if allInt && len(bvs) <= 2 {
+		pats += " :pattern (" + strings.Join(ixs, " ") + ")"
 	}
 	if pats != "" {
 		body = "(! " + body + pats + ")"
@@ -481,16 +552,16 @@ func (env *SpecEnv) call(x *SCall) Val {
 			if m := env.macro(id.Name); m != nil {
 				var args []Val
 				for _, a := range x.Args {
-					args = append(args, env.eval(a))
+					args = append(args, env.nopol().eval(a))
 				}
 				return env.expand(m, args)
 			}
 			if uf := env.ufun(id.Name); uf != nil {
-				var args []string
+				var args []Val
 				for _, a := range x.Args {
-					args = append(args, env.eval(a).T)
+					args = append(args, env.eval(a))
 				}
-				return Val{T: sApp(uf.name, args...), S: uf.res, Go: uf.resGo}
+				return env.ufunApply(uf.decl, args)
 			}
 		}
 	}
@@ -545,8 +616,48 @@ func (env *SpecEnv) sel(x *SSel) Val {
 			}
 		}
 	}
+	if v, ok := env.nestedGhost(x); ok {
+		return v
+	}
 	base := env.eval(x.X)
 	return env.fieldOf(base, x.Name)
+}
+
+// nestedGhostPath: ghost state attached to the value stored in a struct field, declared as
+// `ghost Struct.field.name type` (used for function-valued fields: the ghost belongs to the
+// function value, so it survives copying the struct by value).
+func (env *SpecEnv) nestedGhostPath(x *SSel) (idx Val, key string, gs *Sort, gty types.Type, ok bool) {
+	inner, isSel := x.X.(*SSel)
+	if !isSel {
+		return
+	}
+	// cheap syntactic pre-check against the declared ghost fields
+	found := false
+	for _, ps := range env.ex.prog.AllSpecs {
+		for k := range ps.Ghosts {
+			if strings.HasSuffix(k, "."+inner.Name+"."+x.Name) {
+				found = true
+			}
+		}
+	}
+	if !found {
+		return
+	}
+	y := env.eval(inner.X)
+	g, k, s, t := env.ghostField(y.Go, inner.Name+"."+x.Name)
+	if g == nil {
+		return
+	}
+	return env.fieldOf(y, inner.Name), k, s, t, true
+}
+
+func (env *SpecEnv) nestedGhost(x *SSel) (Val, bool) {
+	idx, key, gs, gty, ok := env.nestedGhostPath(x)
+	if !ok {
+		return Val{}, false
+	}
+	a := env.ex.heapGet(env.st, key, env.ex.w.mapGSort(sRef, gs))
+	return Val{T: sSel(a, idx.T), S: gs, Go: gty}, true
 }
 
 func (env *SpecEnv) fieldOf(base Val, name string) Val {
@@ -588,6 +699,17 @@ func (env *SpecEnv) ghostField(t types.Type, name string) (*GhostField, string, 
 		return nil, "", nil, nil
 	}
 	t = types.Unalias(t)
+	if _, isFn := t.Underlying().(*types.Signature); isFn {
+		// ghost state of a function value: `ghost func.name type`, the type is resolved in the
+		// current scope (so that a type parameter T means the T of the function being verified)
+		for _, ps := range env.ex.prog.AllSpecs {
+			if gf, ok := ps.Ghosts["func."+name]; ok {
+				gty, gs := env.resolveType(gf.Type)
+				return gf, "g:func." + name + ":" + gs.Name, gs, gty
+			}
+		}
+		return nil, "", nil, nil
+	}
 	if p, ok := t.Underlying().(*types.Pointer); ok {
 		t = types.Unalias(p.Elem())
 	}
@@ -654,6 +776,19 @@ func (env *SpecEnv) tryResolveType(s string) (types.Type, *Sort) {
 		return types.Typ[types.Bool], sBool
 	case "ArrId":
 		return nil, sArrId
+	}
+	for _, ps := range ex.prog.AllSpecs {
+		if ps.Sorts[s] {
+			return nil, ex.w.unSort(s)
+		}
+	}
+	if strings.HasPrefix(s, "typeof(") && strings.HasSuffix(s, ")") {
+		e, err := parseSpec(s[7 : len(s)-1])
+		if err != nil {
+			return nil, nil
+		}
+		v := env.eval(e)
+		return v.Go, v.S
 	}
 	if strings.HasPrefix(s, "seq[") && strings.HasSuffix(s, "]") {
 		ety, es := env.tryResolveType(s[4 : len(s)-1])
@@ -798,6 +933,12 @@ func (env *SpecEnv) evalModifies(c *Contract) []modTarget {
 			}
 			env.fail("bad modifies target %s", specString(m))
 		case *SSel:
+			if idx, key, gs, _, ok := env.nestedGhostPath(x); ok {
+				as := ex.w.mapGSort(sRef, gs)
+				ex.heapGet(env.st, key, as)
+				out = append(out, modTarget{key: key, obj: idx.T, sort: as})
+				continue
+			}
 			base := env.eval(x.X)
 			n, stT, isPtr := structOf(base.Go)
 			if !isPtr && stT != nil {
@@ -992,10 +1133,19 @@ func (env *SpecEnv) ghostUpdate(g *GhostUpd) {
 		}
 		env.fail("ghost update target must be x.field: %s", g.Src)
 	}
-	base := env.eval(sel.X)
-	gf, key, gs, gty := env.ghostField(base.Go, sel.Name)
-	if gf == nil {
-		env.fail("no ghost field %s", specString(g.LHS))
+	var base Val
+	var key string
+	var gs *Sort
+	var gty types.Type
+	if idx, k, s, t, ok := env.nestedGhostPath(sel); ok {
+		base, key, gs, gty = idx, k, s, t
+	} else {
+		base = env.eval(sel.X)
+		var gf *GhostField
+		gf, key, gs, gty = env.ghostField(base.Go, sel.Name)
+		if gf == nil {
+			env.fail("no ghost field %s", specString(g.LHS))
+		}
 	}
 	var val string
 	if lam, ok := g.RHS.(*SLambda); ok {
